@@ -101,7 +101,6 @@ func verifHarness_C07_pairs() {
 	verifAssert(verifImplies(hashesToS, mapped == owner), "forwarded-to-owner-of-every-workflow-in-s")
 }
 
-
 // verifHarness_C07_describe: DescribeCluster reports the LCM as the peer's shard count in both
 // directions, and leaves the count alone when the translation-bypass header is set.
 func verifHarness_C07_describe() {
